@@ -887,7 +887,7 @@ pub fn run(ctx: &Ctx) {
     ctx.note(format!("pinned supported subset: {} result-producing block-level opcodes (golden/lift_subset.json)", sub.ops.len()));
     run_regress(ctx, SUBS);
     drive_enum(ctx, &SUBS[0], sub.ops.len() as u64 * 4);
-    drive_random(ctx, &SUBS[1], ctx.n(20_000, 1_000_000), 1500);
+    drive_random(ctx, &SUBS[1], ctx.n(20_000, 10_000_000), 1500);
 }
 
 pub fn finish(ctx: &Ctx) -> i32 {
